@@ -44,6 +44,9 @@ func genCases(g *fw.GenCtx) {
 	for k := 0; k < g.Pick(200, 8000); k++ {
 		g.Emit("frame", ccase{Seed: g.Rand.Int63(), N: 20})
 	}
+	for k := 0; k < g.Pick(150, 6000); k++ {
+		g.Emit("alias", ccase{Seed: g.Rand.Int63(), N: 10})
+	}
 }
 
 func clip(s string, n int) string {
@@ -99,6 +102,10 @@ func run(c fw.Case) fw.Outcome {
 	var oc fw.Outcome
 	var cc ccase
 	json.Unmarshal(c.Data, &cc)
+	if c.Kind == "alias" {
+		runAlias(&oc, cc)
+		return oc
+	}
 	r := rand.New(rand.NewSource(cc.Seed))
 	for i := 0; i < cc.N; i++ {
 		p := gen.TypedProgram(r, 5+r.Intn(26))
